@@ -11,6 +11,10 @@ for name in names:
     if not os.path.isdir(d):
         d = os.path.join(root, name)  # re-confirm an already stored seed against the current checks
     prop = name.split("-")[0]
+    mp0 = os.path.join(d, "meta.json")
+    if os.path.exists(mp0) and json.load(open(mp0)).get("obsolete"):
+        print("==", name, "(obsolete, skipped)")
+        continue
     extra = []
     mp = os.path.join(d, "checks.txt")
     checks = [prop] + (open(mp).read().split() if os.path.exists(mp) else [])
@@ -53,7 +57,7 @@ for name in names:
         old_meta = json.load(open(os.path.join(dst, "meta.json")))
         for k in ("summary", "needs_to_manifest", "files", "origin"):
             meta[k] = old_meta.get(k, meta[k])
-        for k in ("history", "round"):
+        for k in ("history", "round", "robust"):
             if k in old_meta:
                 meta[k] = old_meta[k]
     json.dump(meta, open(os.path.join(dst, "meta.json"), "w"), indent=1)
